@@ -193,6 +193,8 @@ seed("C13.R4.fixed-limit", "C13", "C13.R4:connection::new", "codec built with a 
      (CONN, "codec: MemcacheBinaryCodec::new(item_size_limit),", "codec: MemcacheBinaryCodec::new(4096),"))
 seed("C13.R4.config-arg-swap", "C13", "C13.R4:runtime_builder", "connection limit passed as item size limit",
      (RB, "        60,\n        config.connection_limit,\n        config.item_size_limit.as_u64() as u32,\n        config.backlog_limit,\n    );\n\n    let core_ids", "        60,\n        config.item_size_limit.as_u64() as u32,\n        config.connection_limit,\n        config.backlog_limit,\n    );\n\n    let core_ids"))
+seed("C15.R2.remove-if-selects-more", "C15", "C15.R2:remove_if:selects-what-the-predicate-accepts", "the store's remove_if also removes items its predicate did not accept",
+     ('memcrs/src/memory_store/store.rs', '            .filter(|record: &RefMulti<KeyType, Record>| f(record.key(), record.value()))', '            .filter(|record: &RefMulti<KeyType, Record>| f(record.key(), record.value()) || record.value().header.time_to_live == 1)'))
 # ---------------------------------------------------------------- C16
 seed("C16.R1.guard-then-remove", "C16", "C16.R1:", "get_by_key removes while its guard is alive",
      (STORE, "            Some(record) => Ok(record.clone()),", "            Some(record) => {\n                if record.header.time_to_live == 1 {\n                    self.memory.remove(key);\n                }\n                Ok(record.clone())\n            }"))
